@@ -65,6 +65,50 @@ func coveringProblem(r *rand.Rand) (front string, n int, strict bool, cons []gen
 	return front, nn, front == "slicenb", cons, gen.M{"lits": lits, "w": w}
 }
 
+// hardPB: 2..5 linear constraints over 4..8 variables with mixed-sign coefficients and right-hand
+// sides in the middle of the reachable range: the search meets real conflicts whose reasons are
+// cardinality / PB constraints (literals of a reason may be true or unbound).
+func hardPB(r *rand.Rand) (string, []gen.M) {
+	n := 4 + r.Intn(5)
+	var cons []gen.M
+	front := "pb"
+	if r.Intn(4) == 0 {
+		front = "card"
+	}
+	for j := 0; j < 2+r.Intn(4); j++ {
+		k := 2 + r.Intn(min(n, 5)-1)
+		lits := gen.DistinctLits(r, n, k)
+		if front == "card" {
+			switch r.Intn(3) {
+			case 0:
+				cons = append(cons, gen.Ctor("atmost1", lits, nil, 1))
+			case 1:
+				cons = append(cons, gen.Ctor("exactly1", lits, nil, 1))
+			default:
+				cons = append(cons, gen.Ctor("atleast", lits, nil, 1+r.Intn(k)))
+			}
+			continue
+		}
+		w := make([]int, k)
+		lo, hi := 0, 0
+		for i := range w {
+			w[i] = 1 + r.Intn(3)
+			if r.Intn(3) == 0 {
+				w[i] = -w[i]
+			}
+			if w[i] > 0 {
+				hi += w[i]
+			} else {
+				lo += w[i]
+			}
+		}
+		rhs := lo + 1 + r.Intn(hi-lo)
+		kind := []string{"eq", "gteq", "lteq", "eq"}[r.Intn(4)]
+		cons = append(cons, gen.Ctor(kind, lits, w, rhs))
+	}
+	return front, cons
+}
+
 func distinctVars(ls []int) bool {
 	seen := map[int]bool{}
 	for _, l := range ls {
@@ -171,12 +215,16 @@ func init() {
 	// C02 — cardinality and pseudo-boolean constraints
 	register(&core.Check{
 		ID:          "C02",
+		Amplify:     amplifyAPI,
 		TraceModule: "APITrace",
 		Cases: func(env *core.Env) []core.Case {
 			r := env.Rand
 			var res []core.Case
-			for i := 0; i < env.Pick(2500, 30000); i++ {
+			for i := 0; i < env.Pick(3000, 36000); i++ {
 				front, _, cons := randConstraintProblem(r, 6, 5, 4)
+				if i%3 == 0 { // conflict-heavy: several equalities / tight inequalities with mixed signs
+					front, cons = hardPB(r)
+				}
 				n := maxVarOfCons(cons)
 				cfg := gen.Cfg(false, 0, 0, false, false, true)
 				res = append(res, gen.APICase(front, n, false, cons, false, nil, cfg, []gen.M{gen.Op("solve")}))
@@ -197,6 +245,7 @@ func init() {
 	// C03 — optimisation
 	register(&core.Check{
 		ID:          "C03",
+		Amplify:     amplifyAPI,
 		TraceModule: "APITrace",
 		Budget:      0,
 		Cases: func(env *core.Env) []core.Case {
@@ -284,6 +333,7 @@ func init() {
 	// C05 — counting and enumeration
 	register(&core.Check{
 		ID:          "C05",
+		Amplify:     amplifyAPI,
 		TraceModule: "APITrace",
 		Cases: func(env *core.Env) []core.Case {
 			r := env.Rand
@@ -352,6 +402,7 @@ func init() {
 	// C09 — incremental solving
 	register(&core.Check{
 		ID:          "C09",
+		Amplify:     amplifyAPI,
 		Designs:     histDesigns("append"),
 		TraceModule: "APITrace",
 		Cases: func(env *core.Env) []core.Case {
@@ -422,6 +473,7 @@ func init() {
 	// C10 — assumptions
 	register(&core.Check{
 		ID:          "C10",
+		Amplify:     amplifyAPI,
 		Designs:     histDesigns("assume"),
 		TraceModule: "APITrace",
 		Cases: func(env *core.Env) []core.Case {
@@ -433,9 +485,19 @@ func init() {
 				if r.Intn(2) == 0 { // unit clauses / facts
 					clauses = append(clauses, []int{gen.RandLit(r, nv)})
 				}
+				rounds := 1 + r.Intn(4)
+				if i%2 == 0 { // conflicts under assumptions: 3-SAT below the threshold, implications, a fact
+					nv = 6 + r.Intn(3)
+					clauses = gen.RandKSAT(r, nv, int(3.2*float64(nv))+r.Intn(nv), 3)
+					clauses = append(clauses, gen.RandKSAT(r, nv, 1+r.Intn(4), 2)...)
+					if r.Intn(3) > 0 {
+						clauses = append(clauses, []int{gen.RandLit(r, nv)})
+					}
+					clauses = gen.Shuffle(r, clauses)
+					rounds = 3 + r.Intn(4)
+				}
 				cfg := gen.Cfg(false, 0, 0, false, false, true)
 				var ev []gen.M
-				rounds := 1 + r.Intn(4)
 				for d := 0; d < rounds; d++ {
 					k := r.Intn(4)
 					ls := make([]int, 0, k)
@@ -468,6 +530,7 @@ func init() {
 	// C15 — at-most-one detection
 	register(&core.Check{
 		ID:          "C15",
+		Amplify:     amplifyAPI,
 		TraceModule: "APITrace",
 		Cases: func(env *core.Env) []core.Case {
 			r := env.Rand
